@@ -5,4 +5,7 @@ def _load(n):
     m = importlib.util.module_from_spec(spec); spec.loader.exec_module(m); return m
 # split independence of the written bytes, sample-granular encoders (the SEL_WR harness asserts it together with C01's round trip)
 HARNESSES = [h for h in _load("sg_common").sg_harnesses(("SEL_WR",))]
+# block codec staging layer (K-block contract): IMA ADPCM, WAV and AIFF layouts
+HARNESSES += _load("blk_common").ima_harnesses(("SEL_WRITE",))
+
 META = {"assumptions": ["E-memfile"], "outside": ["block codecs and header determinism: see DESIGN"]}
